@@ -345,8 +345,13 @@ func cmdCheck(args []string) int {
 		}
 	}
 	if hangs > 0 || crashed > 0 {
-		fmt.Fprintf(os.Stderr, "check: %d worker(s) hung, %d crashed — tool trouble, not a verdict\n", hangs, crashed)
-		return 2
+		// a hung or crashed worker is tool trouble, never a verdict of its own;
+		// failures that the other workers found and that replay are still reported
+		fmt.Fprintf(os.Stderr, "check: %d worker(s) hung, %d crashed\n", hangs, crashed)
+		if len(agg.Failures) == 0 {
+			fmt.Fprintln(os.Stderr, "check: tool trouble, not a verdict")
+			return 2
+		}
 	}
 	searchWall := time.Since(start).Seconds()
 
@@ -526,6 +531,10 @@ func cmdCheck(args []string) int {
 		s.ID, *tier, agg.Runs, len(distinct), len(states), agg.Images, agg.Faults, violations, kn, time.Since(start).Seconds())
 	if violations > 0 {
 		return 1
+	}
+	if hangs > 0 || crashed > 0 {
+		fmt.Fprintln(os.Stderr, "check: workers hung or crashed and no violation was confirmed — tool trouble, not a verdict")
+		return 2
 	}
 	if unconfirmedRaces > 0 {
 		fmt.Fprintf(os.Stderr, "check: %d data race report(s) could not be reproduced from their replay files — tool trouble, not a verdict\n", unconfirmedRaces)
